@@ -278,8 +278,9 @@ class Verdict:
                   assumptions=assumptions or [], wall_s=round(wall, 2), violations=len(self.violations))
         if not cov['samples']:
             cov['samples'] = ["(no sample recorded)"]
-        os.makedirs(os.path.join(VERIF, 'evidence'), exist_ok=True)
-        evp = os.path.join(VERIF, 'evidence', self.prop + '.json')
+        evdir = os.environ.get('VERIF_EVIDENCE_DIR') or os.path.join(VERIF, 'evidence')
+        os.makedirs(evdir, exist_ok=True)
+        evp = os.path.join(evdir, self.prop + '.json')
         with open(evp, 'w') as f:
             json.dump(ev, f, indent=1, default=_jd, sort_keys=True)
         _validate_evidence(evp)
